@@ -120,4 +120,27 @@ def run(out, tier, seed):
                 sample_filter=lambda t: sum(len(e["dlv"]) for e in t["events"]) > 5)
 
 
-replay = P.replay_world
+def replay(out, path):
+    """a recorded violation run again: envelope cases (Envelope.tla / EnvelopePair.tla) through their own drivers, the others
+    through the scripted world"""
+    import json
+    import os
+    from .. import core, envcheck as E
+    doc = json.load(open(path))
+    if doc.get("signature", {}).get("why") != "envelope":
+        return P.replay_world(out, path)
+    case = doc["case"]["case"]
+    work = core.scratch("c06r-")
+    if "hist" in case:
+        res = E.execute([{"id": case["id"], "hist": case["hist"]}], work, par=1)
+        pj = os.path.join(work, "pairs.json")
+        json.dump([{"id": c["id"], "events": c["events"], "still": c["still"], "started": c["started"]} for c in res], open(pj, "w"))
+        t = core.run_tlc("TraceEnvelopePair", "TraceEnvelopePair.cfg", env={"TRACE_FILE": pj}, workers=1, timeout=600)
+        out.add_tlc("TraceEnvelopePair[replay]", t)
+        for tup in t.tagged("FAIL"):
+            out.judge({"clause": "WrapPairing:" + tup[2], "why": "envelope"}, {"case": res[0], "verdict": list(tup[2:])})
+    else:
+        res = E.execute([{"id": case["id"], "cfg": case["cfg"], "how": case["how"]}], work, par=1)
+        E.judge(out, res, E.validate(res, work, par=1), label="TraceEnvelope[replay]")
+    out.traces += len(res)
+    out.samples.append({"replayed": path, "observed": res[0].get("out", res[0].get("events"))})
